@@ -285,6 +285,58 @@ def panics_to_obligations(src, log, sites):
     return "".join(out)
 
 
+# ---------------------------------------------------------------- R13 clone_from
+def clone_from_calls(src, log):
+    """R13: `A.clone_from(B);` -> `A = (B).clone();`  (Verus: "does not yet support clone_from"; the Clone
+    contract of std defines a.clone_from(&b) as functionally a = b.clone())."""
+    for _ in range(20):
+        toks = tokenize(src)
+        hit = None
+        for k, t in enumerate(toks):
+            if t.kind == "ident" and t.text == "clone_from":
+                p = prev_sig(toks, k)
+                o = next_sig(toks, k)
+                if p < 0 or toks[p].text != "." or toks[o].text != "(":
+                    continue
+                c = match_close(toks, o)
+                semi = next_sig(toks, c)
+                if semi >= len(toks) or toks[semi].text != ";":
+                    raise ExtractError("R13: clone_from not used as a statement")
+                # receiver: path of idents / `.` / `self` / index brackets back to the statement start
+                j = prev_sig(toks, p)
+                start = j
+                while True:
+                    if toks[start].text == "]":
+                        d = 1
+                        q = start
+                        while d:
+                            q -= 1
+                            if toks[q].text == "]":
+                                d += 1
+                            elif toks[q].text == "[":
+                                d -= 1
+                        start = prev_sig(toks, q)
+                        continue
+                    pj = prev_sig(toks, start)
+                    if pj >= 0 and toks[pj].text in (".", "::"):
+                        start = prev_sig(toks, pj)
+                    else:
+                        break
+                pb = prev_sig(toks, start)
+                if pb >= 0 and toks[pb].text not in (";", "{", "}"):
+                    raise ExtractError("R13: clone_from receiver is not a plain place expression")
+                hit = (start, p, o, c, semi)
+                break
+        if not hit:
+            return src
+        start, p, o, c, semi = hit
+        recv = text(toks, start, p).strip()
+        arg = text(toks, o + 1, c).strip()
+        src = text(toks, 0, start) + "%s = (%s).clone();" % (recv, arg) + text(toks, semi + 1, len(toks))
+        log.append({"rule": "R13", "receiver": recv})
+    raise ExtractError("R13 did not converge")
+
+
 # ---------------------------------------------------------------- R4 format!
 def _strip_ref(a):
     a = a.strip()
